@@ -10,7 +10,7 @@ FRAGS = [249, 250, 498, 2048]
 class C06(Prop):
     id = "C06"
     translators = ["gen_link"]
-    proof_targets = ["Link/CrcProofs.vo", "Link/ParserProofs.vo", "Link/ReaderProofs.vo"]
+    proof_targets = ["Link/CrcProofs.vo", "Link/ParserProofs.vo", "Link/ReaderProofs.vo", "Link/ParserIncr.vo"]
     property_file = "Properties/C06.v"
     theorems = []  # filled from Properties/C06.v by check
     modelled = ("modelled by hand: link/parser.rs, link/reader.rs, link/format.rs, link/header.rs, "
